@@ -31,10 +31,21 @@ def gen(seed, index):
     strat = r.choice([["rtb", 5, 8], ["rtb", 15, 8], ["rtb", 15, 30], ["rtb", 40, 4], ["rtb", 8, 60],
                       ["pct", 1, 300], ["pct", 2, 400], ["pct", 3, 600], ["uniform"], ["rtb", 0, 1]])
     delays = [0 if r.random() < 0.5 else r.randint(0, 250) for _ in range(n)]
-    return {"seed": seed, "mode": r.choice(["Serial", "Serial", "OpenMP"]), "jobs": jobs,
-            "pre": r.choice(["cold", "cold", "vendor", "partial"]), "n": n, "delays": delays,
-            "strategy": strat, "switches": None,
-            "clock_skew_s": [r.choice([0, 0, 0, 1, -1, 3600, 86400]) for _ in range(n)]}
+    scn = {"seed": seed, "mode": r.choice(["Serial", "Serial", "OpenMP"]), "jobs": jobs,
+           "pre": r.choice(["cold", "cold", "vendor", "partial"]), "n": n, "delays": delays,
+           "strategy": strat, "switches": None,
+           "clock_skew_s": [r.choice([0, 0, 0, 1, -1, 3600, 86400]) for _ in range(n)]}
+    # crash faults: in a quarter of the scenarios some (never all) of the processes are killed
+    # somewhere in their build; the survivors and the follow-up process are judged as usual
+    crashes = []
+    if r.random() < 0.25:
+        victims = r.sample(range(n), r.randint(1, max(1, min(3, n - 1))))
+        for v in sorted(victims):
+            kind = r.choice(["killbefore", "killafter", "torn"])
+            crashes.append({"vp": v, "step": r.choice([r.randint(0, 60), r.randint(0, 320), r.randint(100, 320)]),
+                            "kind": kind, "permille": r.choice([0, 1, 250, 500, 900, 999])})
+    scn["crashes"] = crashes
+    return scn
 
 
 def _jobs(scn):
@@ -69,11 +80,16 @@ def execute(scn, sb):
     sw = scn.get("switches")
     if sw is not None:
         sw = {int(k): v for k, v in sw.items()}
+    crashes = scn.get("crashes") or []
     g = ps.run_group(sb, seed, vps, strategy=tuple(scn["strategy"]), switches=sw, clock0=steps * 10 ** 6,
-                     maxsteps=8000)
+                     maxsteps=8000,
+                     faults=[(c["vp"], c["step"], c["kind"], c.get("permille", 500)) for c in crashes if c["vp"] < scn["n"]])
     steps += g.gsteps
     violations = []
+    killed = [i for i in range(scn["n"]) if g.vp[i].get("killed")]
     for i in range(scn["n"]):
+        if i in killed:
+            continue
         for (cls, text) in sc.judge_outputs(g.outputs[i], g.vp[i], jobs, "process %d" % i):
             violations.append([cls, text])
     inconclusive = g.inconclusive
@@ -95,7 +111,9 @@ def execute(scn, sb):
         "log_hash": ps.log_hash(g.log + (f.log if f else [])),
         "steps": steps, "sim_ns": steps * 10 ** 6, "inconclusive": inconclusive,
         "nontrivial": ncontended > 0, "distinct_key": sig,
+        "faults": {"process killed while others build": len(killed)} if killed else {},
         "probes": {"runs_with_inflight_conflict": 1 if racy else 0,
+                   "runs_with_a_killed_process": 1 if killed else 0,
                    "contended_ops": ncontended,
                    "processes_total": scn["n"],
                    "compiles_in_group": sum(v["compiles"] for v in g.vp)},
@@ -116,7 +134,8 @@ def execute(scn, sb):
 def signature(scn, out):
     v = out["violations"][0]
     msg = sc.normalise_msg(v[1].split(": ", 1)[-1]) if v[0].endswith("exception") else ""
-    return "%s|%s|%s|racy=%s" % (PROP, v[0], msg, ",".join(out.get("racy", [])))
+    return "%s|%s|%s|racy=%s%s" % (PROP, v[0], msg, ",".join(out.get("racy", [])),
+                                   "|killed" if out.get("probes", {}).get("runs_with_a_killed_process") else "")
 
 
 def minimise(ex, scn, out, cls):
@@ -133,6 +152,7 @@ def minimise(ex, scn, out, cls):
         cands = []
         for t in range(14):
             c = dict(scn, n=n2, delays=scn["delays"][:n2], clock_skew_s=scn["clock_skew_s"][:n2],
+                     crashes=[x for x in (scn.get("crashes") or []) if x["vp"] < n2 - 1],
                      seed=common.run_seed(scn["seed"], t, "shrink%d" % n2))
             if t % 2 and len(scn["jobs"]) > 1:
                 c["jobs"] = scn["jobs"][:1]
@@ -144,6 +164,11 @@ def minimise(ex, scn, out, cls):
             scn, out = hit[0]
             break
 
+    if scn.get("crashes"):
+        cand = dict(scn, crashes=[])
+        ok, o = fails(cand)
+        if ok:
+            scn, out = cand, o
     cur = dict(scn)
     ch = out["choices"]
     cur["switches"] = {str(k): v for k, v in ps.switches_from_choices(ch).items()}
@@ -188,7 +213,8 @@ def main(tier):
     ps.ensure_engine()
     ex = pscheck.Explorer(PROP, tier, "exploration", gen, execute, signature, minimise)
     ex.report.rule = ("one run = one seeded scenario (2-16 processes x 1-3 string/file kernels x cold/vendor-warm/"
-                      "partly-warm cache x Serial/OpenMP x scheduling strategy x start delays x per-process clock skew); "
+                      "partly-warm cache x Serial/OpenMP x scheduling strategy x start delays x per-process clock skew x "
+                      "in a quarter of the runs 1-3 of the processes killed (before / after a call, torn write) while the others build); "
                       "non-trivial = at least one file-system operation on a path that more than one process touched; "
                       "distinct = hash of the sequence (process, normalised operation, result) restricted to such paths")
     ex.report.assumptions = [
